@@ -601,6 +601,24 @@ let mon_c10 (r : runres) =
          | _ -> ())
       | _ -> ()))
 
+(* C10 (parent side): "the parent is given a pipe end for a stream exactly when that stream is a pipe" --
+   on a stream that is not a pipe, reads and writes report the closed-pipe error, whatever the
+   history of the handle (earlier failed starts included) *)
+let mon_c10_parent_ends (r : runres) =
+  ignore (walk r (fun tbl _ st _ ->
+      match st.s_op, st.s_res with
+      | OS (SWrite (h, true, _)), RInt rr ->
+        (match Hashtbl.find_opt tbl (i h) with
+         | Some ({ started = true; fork_mode = false; eff = Some e; _ }) when i e.o_in.rd_type <> 1 ->
+           if i rr <> epipe then fail "C10/parent-end/non-pipe-stream/write" (Printf.sprintf "write to a stdin that is not a pipe returned %d" (i rr))
+         | _ -> ())
+      | OS (SRead (h, s, true, _)), RRead (rr, _) when i s = 1 || i s = 2 ->
+        (match Hashtbl.find_opt tbl (i h) with
+         | Some ({ started = true; fork_mode = false; eff = Some e; _ }) when i (if i s = 1 then e.o_out else e.o_err).rd_type <> 1 ->
+           if i rr <> epipe then fail "C10/parent-end/non-pipe-stream/read" (Printf.sprintf "read of stream %d, which is not a pipe, returned %d" (i s) (i rr))
+         | _ -> ())
+      | _ -> ()))
+
 (* C03: argv, environment, working directory, program resolution *)
 let mon_c03 (r : runres) =
   let main = main_of r in
@@ -1233,6 +1251,12 @@ let mon_c16 (r : runres) =
               if t1 > max t0 d then fail "C16/deadline-overrun" (Printf.sprintf "drain returned at %d, the deadline was %d" t1 d)
             | _ -> ());
            let calls = List.map (fun (((w, s), n), rs) -> (i w, i s, i n, rs)) calls in
+           (match hi.deadline_abs with
+            | Some d when d <= i st.s_before.w_time ->
+              (* the deadline had passed before the call: the time-out error at once, nothing delivered *)
+              if List.length calls > 2 then
+                fail "C16/delivered-after-deadline" (Printf.sprintf "drain called %d ms after the deadline still made %d sink calls with data" (i st.s_before.w_time - d) (List.length calls - 2))
+            | _ -> ());
            let so = ref (List.map i souts) and se = ref (List.map i serrs) in
            let pop which = let l = if which = 0 then so else se in match !l with [] -> 0 | v :: t -> l := t; v in
            let stopped = ref None in
@@ -1399,7 +1423,7 @@ let monitor (prop : string) (r : runres) (sc : scenario) (flags : string list) :
    | "C07" -> mon_c07 r
    | "C08" -> mon_c08 r
    | "C09" -> mon_c09 r
-   | "C10" -> mon_c10 r
+   | "C10" -> mon_c10 r; mon_c10_parent_ends r
    | "C11" -> mon_c11 r
    | "C12" -> mon_c12 r flags
    | "C13" -> mon_c13 r
